@@ -344,7 +344,8 @@ fn gen_op(prop: &str, d: &Desc, cur: &Value, avail: usize, rng: &mut Rng) -> Opt
             Some(match rng.below(if prop == "C13" { 9 } else { 12 }) {
                 0..=4 => Op::FPush(gen_value(item, rng, budget.max(1)), rng.next()),
                 5 | 6 => {
-                    if item.has_default() {
+                    if item.has_default() && !matches!(**item, Desc::Array(..)) {
+                        // (the glue has no default emplacer for bare arrays)
                         Op::FPushDefault
                     } else {
                         Op::FPush(gen_value(item, rng, 2), rng.next())
@@ -652,6 +653,25 @@ pub fn run(ctx: &Ctx, rep: &mut Report) {
                     let refused_now = !changed_ok;
 
                     // ---- observe after
+                    // validity first: an invalid value must not be walked (its accessors are only sound on valid bytes)
+                    if let Ok(Err(e)) = guarded(|| root.as_dyn().revalidate()) {
+                        let is_assign = matches!(op, Op::Assign(..));
+                        if is_assign && refused_now {
+                            // first sentence of C18; the other history properties only stop here
+                            if prop == "C18" {
+                                let cause = if nested_enum_refuses(nd, &op, sel.avail) { "nested-enum-variant-does-not-fit" } else { no_room_cause(nd, &op, sel.avail) };
+                                viol.push((
+                                    format!("C18|valid-after-error|own-bytes-do-not-validate|{}|{}|{}", nd.kind(), emp_kind(nd, &op), cause),
+                                    format!("after failed {} (target at {}): validate(as_bytes()) = {:?}", opdesc, kinds, e),
+                                ));
+                            }
+                            counters.push("failed-assign-left-invalid-value".into());
+                        } else {
+                            let clause = if refused_now { "valid-after-refusal" } else { "valid-after-op" };
+                            viol.push((format!("{}|{}|own-bytes-do-not-validate|{}|{}", prop, clause, op.name(), kinds), format!("after {} ({}): validate(as_bytes()) = {:?}", opdesc, outcome, e)));
+                        }
+                        break;
+                    }
                     let after = guarded(|| {
                         let vd = root.as_dyn();
                         (vd.bytes().to_vec(), vd.size(), vd.revalidate(), vd.read())
@@ -949,6 +969,38 @@ fn no_room_cause(d: &Desc, op: &Op, avail: usize) -> &'static str {
         }
         (Desc::Struct { .. }, _) => "tail-does-not-fit",
         _ => "content-does-not-fit",
+    }
+}
+
+/// Does the initialiser of an unsized enum somewhere down the tail chain of the replacement refuse (its variant's
+/// minimal size does not fit) *after* an enclosing enum has passed its own check and written its tag?
+fn nested_enum_refuses(d: &Desc, op: &Op, avail: usize) -> bool {
+    fn go(d: &Desc, v: &Value, avail: usize, under_enum: bool) -> bool {
+        match (d, v) {
+            (Desc::Enum { sized: false, variants, .. }, Value::Var(i, f)) => {
+                let region = floor_to(avail, d.align()).saturating_sub(d.unsized_data_off());
+                if region < d.variant_min(*i) {
+                    return under_enum;
+                }
+                let fields = &variants[*i];
+                match fields.last() {
+                    Some(l) if !l.is_sized() => {
+                        let (offs, _, _) = c_struct(fields);
+                        go(l, &f[fields.len() - 1], region.saturating_sub(*offs.last().unwrap()), true)
+                    }
+                    _ => false,
+                }
+            }
+            (Desc::Struct { sized: false, fields, .. }, Value::Struct(f)) => {
+                let (offs, _, _) = c_struct(fields);
+                go(fields.last().unwrap(), &f[fields.len() - 1], floor_to(avail, d.align()).saturating_sub(*offs.last().unwrap()), under_enum)
+            }
+            _ => false,
+        }
+    }
+    match op {
+        Op::Assign(v, _) => go(d, v, avail, false),
+        _ => false,
     }
 }
 
